@@ -59,6 +59,7 @@ pub struct World {
     pub mp: Option<MultiProgress>,
     pub bars: BTreeMap<i64, Vec<ProgressBar>>,
     pub pipe_r: Option<std::fs::File>,
+    pub weak: BTreeMap<i64, indicatif::WeakProgressBar>,
 }
 
 fn pipe_term() -> (console::Term, std::fs::File) {
@@ -87,7 +88,7 @@ impl World {
     pub fn new(cfg: &Value) -> World {
         let w = cfg["w"].as_u64().unwrap_or(80) as u16;
         let h = cfg["h"].as_u64().unwrap_or(24) as u16;
-        let mut world = World { spy: Spy::new(w, h), mp: None, bars: BTreeMap::new(), pipe_r: None };
+        let mut world = World { spy: Spy::new(w, h), mp: None, bars: BTreeMap::new(), pipe_r: None, weak: BTreeMap::new() };
         if let Some(m) = cfg.get("mp").and_then(|m| m.as_object()) {
             let t = m.get("target").and_then(|x| x.as_str()).unwrap_or("spy").to_string();
             let hz = m.get("hz").and_then(|x| x.as_u64()).unwrap_or(0);
@@ -194,6 +195,8 @@ pub fn exec(world: &mut World, op: &Value) -> String {
         }
         "set_target" => { let t = op.get("target").and_then(|x| x.as_str()).unwrap_or("spy").to_string(); let hz = op.get("hz").and_then(|x| x.as_u64()).unwrap_or(0); let tg = world.target(&t, hz); pb!().set_draw_target(tg); }
         "is_hidden" => { return format!("{}", pb!().is_hidden()); }
+        "downgrade" => { let w = pb!().downgrade(); world.weak.insert(b, w); }
+        "upgrade" => { return match world.weak.get(&b) { None => "noweak".into(), Some(w) => match w.upgrade() { Some(p) => { drop(p); "some".into() } None => "none".into() } }; }
         "mp_println" => { return match world.mp.as_ref().unwrap().println(m()) { Ok(_) => "ok".into(), Err(_) => "err".into() }; }
         "mp_suspend" => {
             let spy = world.spy.clone();
@@ -217,15 +220,16 @@ pub fn exec(world: &mut World, op: &Value) -> String {
 
 pub fn getters(world: &World, b: i64) -> Value {
     match world.bar(b) {
-        None => json!({"has": false, "pos": [0,0,0,0,0], "pos_s": 0, "len": [0,0,0,0,0], "len_s": 0, "haslen": false, "msg": [], "prefix": [], "fin": false}),
+        None => json!({"has": false, "pos": [0,0,0,0,0], "pos_s": 0, "len": [0,0,0,0,0], "len_s": 0, "haslen": false, "msg": [], "prefix": [], "fin": false, "elapsed_us": 0}),
         Some(p) => {
             let r = catch_unwind(AssertUnwindSafe(|| {
                 let pos = p.position();
                 let len = p.length();
                 json!({"has": true, "pos": limbs(pos), "pos_s": small(pos), "len": limbs(len.unwrap_or(0)), "len_s": small(len.unwrap_or(0)),
-                       "haslen": len.is_some(), "msg": tok::cells_json(&p.message()), "prefix": tok::cells_json(&p.prefix()), "fin": p.is_finished()})
+                       "haslen": len.is_some(), "msg": tok::cells_json(&p.message()), "prefix": tok::cells_json(&p.prefix()), "fin": p.is_finished(),
+                       "elapsed_us": small(p.elapsed().as_micros() as u64)})
             }));
-            r.unwrap_or_else(|_| json!({"has": true, "poisoned": true, "pos": [0,0,0,0,0], "pos_s": -2, "len": [0,0,0,0,0], "len_s": -2, "haslen": false, "msg": [], "prefix": [], "fin": false}))
+            r.unwrap_or_else(|_| json!({"has": true, "poisoned": true, "pos": [0,0,0,0,0], "pos_s": -2, "len": [0,0,0,0,0], "len_s": -2, "haslen": false, "msg": [], "prefix": [], "fin": false, "elapsed_us": 0}))
         }
     }
 }
